@@ -4,7 +4,7 @@ fn main() {
     let a: Vec<String> = std::env::args().collect();
     if a.len() < 2 { eprintln!("usage: vh <prop> [--tier quick|thorough] [--seed N] [--out DIR] [--replay CASE]"); std::process::exit(2); }
     let prop = a[1].to_lowercase();
-    let mut args = Args { tier_thorough: false, seed: 1, out: format!("/verif/work/{prop}"), replay: None };
+    let mut args = Args { tier_thorough: false, seed: 1, out: format!("work/{prop}"), replay: None };
     let mut i = 2;
     while i < a.len() {
         match a[i].as_str() {
@@ -15,8 +15,5 @@ fn main() {
             _ => { i += 1; }
         }
     }
-    match prop.as_str() {
-        "c18" => props::c18::run(&args),
-        _ => { eprintln!("unknown property {prop}"); std::process::exit(2); }
-    }
+    if !props::dispatch(prop.as_str(), &args) { eprintln!("unknown property {prop}"); std::process::exit(2); }
 }
